@@ -38,6 +38,10 @@ def shapes(tier):
         out.append(dict(part='json_filter', value=vk))
         out.append(dict(part='having', value=vk))
         out.append(dict(part='paging', value=vk))
+        for vk2 in ('String', 'Integer'):
+            out.append(dict(part='paging', value=vk, value2=vk2))
+    for vk in ('String', 'Binary'):
+        out.append(dict(part='paging', value=vk, before=1))
     for vk in ('variable', 'String'):
         out.append(dict(part='search', value=vk))
     for vk in ('variable', 'Integer'):
@@ -154,7 +158,17 @@ def run_once(ctx, w, shape, tag, maxlen):
         syms += s1
         dn = [v[0] for v in w.src.enum_variants('Direction')]
         ob = w.struct('OrderBy', name=S(lit='name'), direction=Enum('Direction', dn.index('Asc'), 'Asc', []), is_selected=True, field=fld)
-        params = entity_params(w, after=VecV([Cell(fv)]), order_by=VecV([Cell(ob)]))
+        keys_, obs = [Cell(fv)], [Cell(ob)]
+        if shape.get('value2'):
+            fv2, s3 = field_value(w, ctx, shape['value2'], tag + '2', maxlen)
+            fld2, _ = mk_field(w, ctx, 'scalar', tag + '2', maxlen)
+            syms += s3
+            keys_.append(Cell(fv2))
+            obs.append(Cell(w.struct('OrderBy', name=S(lit='age'), direction=Enum('Direction', dn.index('Desc'), 'Desc', []), is_selected=False, field=fld2)))
+        if shape.get('before'):
+            params = entity_params(w, before=VecV(keys_), order_by=VecV(obs))
+        else:
+            params = entity_params(w, after=VecV(keys_), order_by=VecV(obs))
         sql = ctx.exec_fn(ctx.func('get_paging'), [Ref(Cell(params)), Ref(sq, True)])
     else:
         fv, s1 = field_value(w, ctx, shape['value'], tag, maxlen)
